@@ -181,6 +181,14 @@ func httpEncodePathValues(input protoreflect.Message, target *routeTarget) (
 			)
 		}
 
+		if variableSize == -1 && variable.start+len(values) < len(segments) {
+			// The trailing "**" must consume at least one segment; otherwise the
+			// literal wildcard would end up in the URL.
+			return "", nil, fmt.Errorf(
+				"expected field %s to match pattern %q: instead got %q",
+				variable.fieldPath, strings.Join(variable.index(segments), "/"), value,
+			)
+		}
 		for i, part := range values {
 			segmentIndex := variable.start + i
 			if segmentIndex >= len(segments) {
